@@ -6,12 +6,13 @@ CONSTANTS
   MaxCtr = 100
   StartCtrs = {0}
   PreFrames = {0}
-  BaseEncs = {TRUE}
+  BaseEncs = {TRUE, FALSE}
   MaxFaults = 0
   MaxHandoffs = 2
   Bug = {}
   GenMode = "script"
   GenDepth = 0
-  ScriptIds = {1, 2, 3}
+  HandoffEnds = {"a", "b"}
+  ScriptIds = {1, 2, 3, 4}
 INVARIANT EmitTrace
 CHECK_DEADLOCK FALSE
